@@ -13,8 +13,7 @@ import (
 //   a private global, a private function, an unused public function, optionally a top-level statement.
 // The main file calls into a random subset.  Expected stdout is computed here, from the meaning of
 // modules, not from any model.  Cases where some file is reached along several import paths or
-// aliases are tagged "shared": on the pinned tree such a file's top-level code and private globals are
-// duplicated (recorded finding).
+// aliases are counted as "shared" in the distribution: such a file's code must be part of the program once.
 
 type modSpec struct {
 	name    string
@@ -178,9 +177,7 @@ func init() {
 			}
 			f := progFields("main.tsh", files, std)
 			tag := ""
-			if shared {
-				tag = "#shared-import-duplicated"
-			}
+			_ = shared // shared files must behave like any other (the duplication defect is fixed in /repo)
 			g.addCase("emit", f...)
 			id := fmt.Sprintf("%d%s", g.n, tag)
 			fmt.Fprintf(g.cases, "run %s %s\n", id, strings.Join(f, " "))
